@@ -568,14 +568,10 @@ Definition option_requested (k : optkind) (v : optval) : option string :=
    `_uses_edge_delay_buffer`, so the guards treat it like DDiscrete, vectorized or not (since D114 the plain delay keeps
    its ring buffer also when vectorization merges it into one edge group with the spread edge). *)
 Definition mixed_config (b : backend) (s : solver) (v : bool) (e : entry) : config := mkc b s v DDiscrete false true e.
-(* loud downstream failure of this probe model on the current tree (class EOther, not a guard): vectorized, with an
-   adaptive solver the backend has (history path), the generated function fails at its first call in `run` and
-   get_run_func ("Function to integrate must not return a tuple", shape errors) — except on torch when the plain-delay
-   edge is processed first *)
-Definition mixed_vec_crash (b : backend) (s : solver) (v : bool) (first_plain : bool) (e : entry) : bool :=
-  v && is_integration_adaptive s && negb (entry_eqb e EJac) && negb (backend_eqb b BTorch && first_plain).
+(* since D115 the vectorized compilation of this model also works with an adaptive solver (DDE history path), so the
+   model behaves like the other discrete-delay rows of the matrix in every respect *)
 Definition mixed_outcome (b : backend) (s : solver) (v : bool) (first_plain : bool) (e : entry) : result :=
-  andthen (outcome (mixed_config b s v e)) (crash (mixed_vec_crash b s v first_plain e)).
+  outcome (mixed_config b s v e).
 
 (* the same mixture through the PopulationTemplate / Connectivity API (NetworkGraph._add_matrix_delay): one population
    projecting onto itself through a plain-delay matrix connection and a delay+spread one, in either order.  The
